@@ -319,6 +319,14 @@ pub fn serialize_into(f: StdFile, s: &TargetEnvState, Tracked(w): Tracked<&mut W
 //@contract
     ensures *final(w) == *old(w), r@ == old(w).snap.listing(resources@),
 //@end
+//@fn src/fs.rs list_files_in_paths assumed ret=r
+//@contract
+    ensures true,
+//@end
+//@fn src/fs.rs list_files_in_path assumed ret=r
+//@contract
+    ensures true,
+//@end
 
 #[verifier::external_body]
 pub struct Metadata { _p: () }
